@@ -42,6 +42,10 @@ type Script struct {
 	// RawEnd as above.  A cut position at or past the end of the frame is no cut: the
 	// response goes out whole and the journal says so (FrameLen, Cut).
 	CutPad int
+	// Barrier, when set, is called once per connection when its FIRST authentication message
+	// has arrived and before it is answered (the conc family: it returns when the first
+	// messages of all connections of the case have arrived, forcing the exchanges to overlap)
+	Barrier func()
 }
 
 const Absent = -1000
@@ -308,6 +312,9 @@ func serve(c net.Conn, sc *Script, j *Journal) {
 			// raw SASL bytes after a v0 handshake
 			j.add("raw")
 			k := 2 + authStep
+			if authStep == 0 && sc.Barrier != nil {
+				sc.Barrier()
+			}
 			authStep++
 			kind := fault(k)
 			var out []byte
@@ -462,6 +469,9 @@ func serve(c net.Conn, sc *Script, j *Journal) {
 
 		case *saslauthenticate.Request:
 			k := 2 + authStep
+			if authStep == 0 && sc.Barrier != nil {
+				sc.Barrier()
+			}
 			authStep++
 			kind := fault(k)
 			res := &saslauthenticate.Response{}
